@@ -9,6 +9,7 @@ import (
 	"sort"
 	"strconv"
 	"strings"
+	"math/rand"
 	"sync"
 	"time"
 
@@ -61,6 +62,10 @@ func c05Case(c *mon.Ctx, i int, record bool) {
 	var o *mon.Obj
 	var desc string
 	var isSeed bool
+	if base := len(W.Objs) + c.Pick(12000, 400000) + directedCount(c)/c.Pick(6, 1); i >= base {
+		c05Pair(c, i-base)
+		return
+	}
 	if nU := len(W.Objs) + c.Pick(12000, 400000); i >= nU {
 		// directed families, sampled from the end so the SAN-sibling family is always complete
 		k := directedCount(c) - 1 - (i-nU)*c.Pick(6, 1)
@@ -113,7 +118,7 @@ func c05Case(c *mon.Ctx, i int, record bool) {
 	}
 	for k := 0; k < reps; k++ {
 		// history: another object, other registries, other configurations in between
-		other := W.Objs[rng.Intn(len(W.Objs))]
+		other := c05Neighbour(c, i, rng)
 		_, _, _ = other.Lint(g)
 		rc := c05Regs[rng.Intn(len(c05Regs))]
 		ri := -1
@@ -184,6 +189,34 @@ func c05Case(c *mon.Ctx, i int, record bool) {
 	}
 }
 
+// c05Neighbour picks the object linted just before the subject: half of the
+// time a close relative (an adjacent corpus file - test files of one lint sit
+// next to each other -, another member of the generated families, another
+// mutant of the same seed), otherwise any seed. State leaking from one call
+// into the next shows when both objects drive the same lint down different
+// paths, which relatives do far more often than strangers.
+func c05Neighbour(c *mon.Ctx, i int, rng *rand.Rand) *mon.Obj {
+	n := len(W.Objs)
+	if rng.Intn(2) == 0 {
+		return W.Objs[rng.Intn(n)]
+	}
+	switch {
+	case i >= FamilyStart && i < FamilyEnd:
+		return W.Objs[FamilyStart+rng.Intn(FamilyEnd-FamilyStart)]
+	case i < n:
+		j := i + rng.Intn(9) - 4
+		if j < 0 || j >= n {
+			j = i
+		}
+		return W.Objs[j]
+	default:
+		if o, _ := W.Mutant(c.Rng(i, 0), nil); o != nil { // same seed choice as the subject, different edits
+			return o
+		}
+		return W.Objs[FamilyStart+rng.Intn(FamilyEnd-FamilyStart)]
+	}
+}
+
 func stripClock(s mon.Snap) mon.Snap {
 	out := mon.Snap{}
 	for k, v := range s {
@@ -209,7 +242,7 @@ func init() {
 			nSeeds = len(W.Objs)
 			return nil
 		},
-		Cases:   func(c *mon.Ctx) int { return nSeeds + c.Pick(12000, 400000) + directedCount(c)/c.Pick(6, 1) },
+		Cases:   func(c *mon.Ctx) int { return nSeeds + c.Pick(12000, 400000) + directedCount(c)/c.Pick(6, 1) + c05PairCases(c) },
 		RunCase: func(c *mon.Ctx, i int) { c05Case(c, i, c.Only >= 0 || i%c05FreshEvery == 0) },
 		Aux:     map[string]func(c *mon.Ctx){"io": c05IOAux},
 		Finish: func(c *mon.Ctx, r *mon.Report, ev *mon.Evidence) []string {
@@ -299,4 +332,53 @@ func c05Fresh(c *mon.Ctx, r *mon.Report, ev *mon.Evidence) []string {
 		return []string{fmt.Sprintf("only %d fresh-process comparisons completed", compared)}
 	}
 	return nil
+}
+
+// ---- two-step histories inside the generated families ----
+//
+// For ordered pairs (A, B) of family members: lint A, then B, and compare B
+// with B linted first in this process state's baseline (computed once, before
+// any pair, on fresh parses). Exhaustive over the family at thorough.
+
+var (
+	c05PairBase map[int]mon.Snap
+	c05PairOnce sync.Once
+)
+
+func c05PairCases(c *mon.Ctx) int {
+	n := FamilyEnd - FamilyStart
+	return n * n // exhaustive over ordered pairs (about 11 k pairs today)
+}
+
+func c05Pair(c *mon.Ctx, k int) {
+	g := lint.GlobalRegistry()
+	n := FamilyEnd - FamilyStart
+	c05PairOnce.Do(func() {
+		c05PairBase = map[int]mon.Snap{}
+		for j := FamilyStart; j < FamilyEnd; j++ {
+			if o := W.Objs[j].Reparse(); o != nil {
+				if rs, pv, _ := o.Lint(g); pv == nil && rs != nil {
+					c05PairBase[j] = mon.SnapOf(rs)
+				}
+			}
+		}
+	})
+	a, b := FamilyStart+k/n, FamilyStart+k%n
+	oa, ob := W.Objs[a].Reparse(), W.Objs[b].Reparse()
+	base, ok := c05PairBase[b]
+	if oa == nil || ob == nil || !ok {
+		return
+	}
+	day := today()
+	_, _, _ = oa.Lint(g)
+	rs, pv, _ := ob.Lint(g)
+	c.R.Count("evaluations", 2)
+	c.R.Count("two_step_histories", 1)
+	if pv != nil || rs == nil {
+		return
+	}
+	for _, d := range dropClock(day, mon.Diff(base, mon.SnapOf(rs), false, false)) {
+		name := strings.SplitN(d, ":", 2)[0]
+		c.V("history-dependent|"+name, fmt.Sprintf("lint %s on %s gives a different result right after linting %s than on its own: %s", name, ob.Name, oa.Name, clipS(d, 300)), name, map[string][]byte{"first": oa.DER, "then": ob.DER}, nil)
+	}
 }
